@@ -8,6 +8,7 @@ CONSTANTS
   Stops = {FALSE}
   Modes = {"seq","par"}
   HookModes = {"some"}
+  Logging = FALSE
   Deviations = {}
 CHECK_DEADLOCK FALSE
 INVARIANT Refines
